@@ -39,3 +39,60 @@ fn d8_timer_survives_another_sources_error() {
     for _ in 0..5 { let _ = el.dispatch(Duration::from_millis(20), &mut fired); }
     assert_eq!(fired, 1, "an armed timer was lost because another source failed in the same dispatch");
 }
+
+/// a source whose processing is fine but whose requested re-registration fails
+struct FailingReregister(PingSource);
+impl EventSource for FailingReregister {
+    type Event = ();
+    type Metadata = ();
+    type Ret = ();
+    type Error = Box<dyn std::error::Error + Sync + Send>;
+    fn process_events<F>(&mut self, r: Readiness, t: Token, cb: F) -> Result<PostAction, Self::Error>
+    where
+        F: FnMut((), &mut ()),
+    {
+        self.0.process_events(r, t, cb)?;
+        Ok(PostAction::Reregister)
+    }
+    fn register(&mut self, p: &mut Poll, f: &mut TokenFactory) -> calloop::Result<()> { self.0.register(p, f) }
+    fn reregister(&mut self, _: &mut Poll, _: &mut TokenFactory) -> calloop::Result<()> {
+        Err(calloop::Error::OtherError("re-registration failed".into()))
+    }
+    fn unregister(&mut self, p: &mut Poll) -> calloop::Result<()> { self.0.unregister(p) }
+}
+
+#[test]
+fn d8_timer_survives_another_sources_failing_post_action() {
+    let mut el: EventLoop<u32> = EventLoop::try_new().unwrap();
+    let (p, s) = make_ping().unwrap();
+    el.handle().insert_source(FailingReregister(s), |_, _, _| {}).unwrap();
+    el.handle().insert_source(Timer::from_duration(Duration::from_millis(10)), |_, _, fired: &mut u32| { *fired += 1; TimeoutAction::Drop }).unwrap();
+    std::thread::sleep(Duration::from_millis(30));
+    p.ping();
+    let mut fired = 0u32;
+    let r = el.dispatch(Duration::ZERO, &mut fired);
+    assert!(r.is_err(), "the failing re-registration is reported");
+    for _ in 0..5 { let _ = el.dispatch(Duration::from_millis(20), &mut fired); }
+    assert_eq!(fired, 1, "an armed timer was lost because another source's post-action failed in the same dispatch");
+}
+
+#[test]
+fn d8_two_failing_sources_are_both_processed_and_an_error_is_reported() {
+    let mut el: EventLoop<u32> = EventLoop::try_new().unwrap();
+    let (p1, s1) = make_ping().unwrap();
+    let (p2, s2) = make_ping().unwrap();
+    el.handle().insert_source(Failing(s1), |_, _, n: &mut u32| { *n += 1; }).unwrap();
+    el.handle().insert_source(Failing(s2), |_, _, n: &mut u32| { *n += 10; }).unwrap();
+    p1.ping();
+    p2.ping();
+    std::thread::sleep(Duration::from_millis(10));
+    let mut n = 0u32;
+    assert!(el.dispatch(Duration::ZERO, &mut n).is_err());
+    // edge-triggered eventfds: what was not dispatched in that batch is not reported again
+    for _ in 0..3 { let _ = el.dispatch(Duration::from_millis(10), &mut n); }
+    assert_eq!(n, 11, "each ping is delivered exactly once although both sources failed");
+    // the loop is still usable
+    p1.ping();
+    assert!(el.dispatch(Duration::from_millis(100), &mut n).is_err());
+    assert_eq!(n, 12);
+}
